@@ -373,7 +373,7 @@ def root_bookkeeping(ctx):
                     removed_sets[k] = (rl, names)
             ctx.check(bool(rem), f"{lab}/Ok.{k}", [site(rel, b) for b in rem] or [rel.loc(min(R))],
                       f"an Ok{{{k}}} addressed to Root does not remove the target from the unavailable-roots set on every path: the run would never be considered complete (or, counted instead of recorded per target, be considered complete too early)",
-                      props=["C04", "C08"] + (["C11"] if k == "Service" else []))
+                      props=["C04", "C08", "C20"] + (["C11"] if k == "Service" else []))
             whole = [bb for bb in rem if re.search(r"HashSet::<[\w:&' ]*TargetId[,>]", callee_decl(rel.term(bb)))]
             if rem:
                 ctx.check(len(whole) == len(rem), f"{lab}/Ok.{k}/whole-identity", [site(rel, b) for b in rem],
